@@ -22,7 +22,7 @@ func LenChecking(ctx *runtime.Task, funcExpr *ast.CallExpr) *errchain.PlError {
 }
 
 func Len(ctx *runtime.Task, funcExpr *ast.CallExpr) *errchain.PlError {
-	val, dtype, err := runtime.RunStmt(ctx, funcExpr.Param[0])
+	val, dtype, err := runArg(ctx, funcExpr.Param[0])
 	if err != nil {
 		return err
 	}
